@@ -25,7 +25,7 @@ Proof.
   destruct (Forall2_nth_l _ _ _ _ _ (inv_objs _ I) Ex) as (i & Ei & O).
   assert (Eg : g_inc w o = i) by (unfold g_inc; apply nth_error_nth_default; auto).
   exists x. rewrite Eg. splits; auto.
-  - unfold g_pid. rewrite Eg. destruct O as [Hh _]. eapply inc_pid_ok; eauto.
+  - unfold g_pid. rewrite Eg. destruct O as [(s0 & _ & Hh) _]. eapply inc_pid_ok; eauto.
   - unfold obj_pid. rewrite Ex. reflexivity.
 Qed.
 
@@ -229,8 +229,8 @@ Proof.
   destruct (do_hash y) as [y1 h2] eqn:Hy.
   pose proof (do_hash_ok w y _ Oy) as (_ & Eh2 & _). rewrite Hy in Eh2. cbn [fst snd] in *.
   rewrite Eh1, Eh2, !ident_eqb_obj_eq. rewrite (obj_eq_inc _ _ _ _ _ I Ox Oy).
-  assert (R1 : obj_eq x x = true) by (unfold obj_eq; rewrite !Z.eqb_refl; reflexivity).
-  assert (R2 : obj_eq y y = true) by (unfold obj_eq; rewrite !Z.eqb_refl; reflexivity).
+  assert (R1 : obj_eq x x = true) by (rewrite (obj_eq_inc _ _ _ _ _ I Ox Ox); apply Z.eqb_refl).
+  assert (R2 : obj_eq y y = true) by (rewrite (obj_eq_inc _ _ _ _ _ I Oy Oy); apply Z.eqb_refl).
   rewrite R1, R2. reflexivity.
 Qed.
 
@@ -320,7 +320,7 @@ Proof.
   induction h2 as [|e h2 IH]; intros w o I W H A; cbn [run_from fold_left]; auto.
   cbn [wf_from] in W. apply andb_true_iff in W as [W1 W2].
   pose proof (next_inv w e I W1) as I'.
-  destruct (obj_facts w o I H) as (x & Ex & (Hh & _) & _).
+  destruct (obj_facts w o I H) as (x & Ex & ((s0 & _ & Hh) & _) & _).
   pose proof (proj1 (has_obj_len w o I) H) as L.
   assert (H' : has_obj (next w e) o = true).
   { apply (has_obj_len _ o I'). pose proof (objs_len_next w e I W1). lia. }
@@ -358,8 +358,8 @@ Proof.
   destruct (IH (next w e) I' Wb H') as (R1 & R2 & R3). fold (run_from (next w e) h2).
   rewrite R2, R3. splits; auto.
   - apply g_inc_next; auto.
-  - destruct (obj_facts w o I H) as (x & _ & (Hh & _) & _ & Egp & Eop).
-    destruct (obj_facts (next w e) o I' H') as (x' & _ & (Hh' & _) & _ & Egp' & Eop').
+  - destruct (obj_facts w o I H) as (x & _ & ((s0 & _ & Hh) & _) & _ & Egp & Eop).
+    destruct (obj_facts (next w e) o I' H') as (x' & _ & ((s1 & _ & Hh') & _) & _ & Egp' & Eop').
     rewrite Eop, Eop'. rewrite g_inc_next in Hh' by auto.
     apply (hist_mono w e) in Hh. destruct (inv_fun _ I' _ _ _ _ _ Hh Hh'); auto.
 Qed.
